@@ -33,9 +33,11 @@ def rule_refresh(ctx):
         res.missing_anchor("<GmmValidParams as Fit>::fit")
     for fn in fits:
         key = fn_key(fn)
-        tr = Tracer(fn).run()
-        stores = [e for e in tr.events if e.kind == "assign" and e.lhs == "local:best_params" or (e.kind == "assign" and "best" in e.lhs and e.loops)]
-        stores = [e for e in stores if e.kind == "assign" and e.loops]
+        # private helpers (refresh_precisions_full, e_step, ..) are expanded in place, so that a helper that is inlined
+        # by hand - or a block extracted into one - gives the same event stream; m_step stays a call (the anchor)
+        tr = Tracer(fn, inline=ctx.inliner(keep=("m_step", "e_step", "compute_precisions_full", "compute_precisions_cholesky_full"))).run()
+        # the store of the model into the best-run slot: an assignment, inside the run loop, of a clone of the model
+        stores = [e for e in tr.events if e.kind == "assign" and e.loops and e.lhs.startswith("local:")]
         # the stored value must be a clone of the model local
         model_stores = []
         for e in stores:
@@ -43,12 +45,14 @@ def rule_refresh(ctx):
             if any(x.get("k") == "MethodCall" and x["name"] == "clone" for x in walk(n)):
                 model_stores.append(e)
         if not model_stores:
-            res.violate("%s : no-best-store" % key, "no store of the model into the best-run slot found (fail closed)", fn_loc(fn))
+            res.undecided("%s : no-best-store" % key, "no store of the model into the best-run slot found (fail closed)", fn_loc(fn))
             continue
         for e in model_stores:
             res.instance("%s : store into %s" % (key, e.lhs))
             before = [x for x in tr.events if x.kind == "call" and x.order < e.order]
-            refresh = [x for x in before if x.name.startswith("refresh_precisions")]
+            # a refresh is `<model>.precisions = compute_precisions_full(<model>.precisions_chol)` (directly or in a helper)
+            refresh = [x for x in tr.events if x.order < e.order and ((x.kind == "call" and x.name.startswith("refresh_precisions")) or
+                       (x.kind == "assign" and x.lhs.endswith(".precisions") and "call:compute_precisions_full(" in k(x.val) and "precisions_chol" in k(x.val)))]
             msteps = [x for x in before if x.name == "m_step"]
             if refresh and (not msteps or max(x.order for x in refresh) > max(x.order for x in msteps)) and gkeys(refresh[-1]) == gkeys(e):
                 res.ok()
